@@ -1,0 +1,18 @@
+//go:build verif
+
+package vgirpc
+
+import "github.com/apache/arrow-go/v18/arrow"
+
+// Verification hooks for property C36 (build tag "verif", add-only).
+
+// VerifC36Schemas returns the schemas a registered method was registered with
+// (params, unary result, stream output, stream input); ok is false when the
+// method is unknown. Accessor only.
+func VerifC36Schemas(s *Server, method string) (params, result, output, input *arrow.Schema, ok bool) {
+	info, found := s.methods[method]
+	if !found {
+		return nil, nil, nil, nil, false
+	}
+	return info.ParamsSchema, info.ResultSchema, info.OutputSchema, info.InputSchema, true
+}
